@@ -11,7 +11,8 @@ META = {
                    "returns Err only on the Exhausted arm of the drain loop, which is entered only through the queue-empty exit of the stagger loop (every candidate started); "
                    "(C10.3) Exhausted is produced only on tasks.next()'s None edge; (C10.4) the first error is kept (the store to self.error is guarded by error.is_none()) and "
                    "NoProgress arises only from unwrap_or on the taken error; (C10.5) finish: on the Some(timeout) edge process_all() runs inside tokio::time::timeout whose Err maps "
-                   "to Timeout and whose Ok(x) is x unchanged; (C10.6) TcpConnecting::connect maps Error(e) to e itself.",
+                   "to Timeout and whose Ok(x) is x unchanged; (C10.6) TcpConnecting::connect maps Error(e) to e itself."
+                   " Rules are evaluated on expanded units of the async bodies (helpers, closures and awaits of local async fns spliced); C10.8 requires every popped address to become an attempt before anything else happens.",
     "trusted_base": ["rustc type/borrow checker", "futures_util::FuturesUnordered yields completed futures", "tokio::time::timeout"],
     "assumptions": [],
     "undecided": "'succeeds whenever some candidate would accept before the deadline' and ordering by completion time (FuturesUnordered + timers over virtual time)",
